@@ -200,6 +200,21 @@ def m11():
                 unsafe { Ok(codec::DecodeFinished::assert_decoding_finished()) }
             }""", keep_encode=True)
 
+@mutant("own12-decode-assume-init-before-error-check", True, "natively invisible: on short input the value is `assume_init`-ed from uninitialised memory before the read error is propagated (Err is still returned); only an interpreter that detects undefined behaviour sees it")
+def m12():
+    manual_codec(dec_body="""            fn decode<I: codec::Input>(input: &mut I) -> Result<Self, codec::Error> {
+                let mut slot = core::mem::MaybeUninit::<$Inner>::uninit();
+                // SAFETY: the slot is size_of::<$Inner>() bytes of plain memory
+                let bytes = unsafe {
+                    core::slice::from_raw_parts_mut(slot.as_mut_ptr() as *mut u8, core::mem::size_of::<$Inner>())
+                };
+                let res = input.read(bytes);
+                // SAFETY: read() filled the slot
+                let raw = unsafe { slot.assume_init() };
+                res?;
+                Ok(Self::from_bits(<$Inner>::from_le(raw)))
+            }""", keep_encode=True)
+
 # ---- refactorings that must NOT raise an alarm
 @mutant("ok01-fields-reordered", False, "n/a: phantom field first; encoding unchanged")
 def n01():
